@@ -9,6 +9,12 @@
      Worker.extract / extract_single / _extract_single / _check / decompress (py7zr.py 1273-1510)
      SevenZipFile.test / testzip                         (py7zr.py 1177-1207)
    Decoders and the header parser are arbitrary functions (Section variables).
+   State of the code mirrored (repo HEAD f12575e): the folder-level CRC is compared when the
+   whole folder has been delivered (decompressor.is_complete()); a member whose CRC is stored at
+   folder level carries it as its own digest as well; py7zr's writer stores the CRC of the plain
+   header in an encoded/encrypted header and Header._read verifies it when present; testzip()
+   calls reset() first; the symbolic-link branch of _extract_single still compares no CRC and
+   testzip() still returns args[2] of a folder-level CrcError, i.e. None.
    stdlib only; no axioms. *)
 From P7 Require Import Prelude Crc32.
 From Coq Require Import NArith ZArith List Bool Lia ZifyBool.
@@ -139,8 +145,8 @@ Record mfile := mkFile {
 }.
 
 (* what one call of Worker.decompress for a member does: hands out chunks and
-   returns, or the decoder raises, or the folder-level check at the end of the
-   folder raises CrcError(crc, digest, None) *)
+   returns, or the decoder raises, or the folder-level check (packed stream consumed and
+   the whole folder delivered) raises CrcError(crc, digest, None) *)
 Inductive dres := DOk (chunks : list bytes) | DErr (e : err) | DFolderCrc.
 
 (* CrcError(expected, actual, filename) -- filename None for the folder level *)
@@ -1414,9 +1420,9 @@ Module Toy.
 
   (* raw header *)
   Definition img_raw : bytes := image data (plain [97; 46; 116]).
-  (* encoded header, no CRC of the header stored (what py7zr's writer produces) *)
+  (* encoded header, no CRC of the header stored (what py7zr's writer produced before f12575e) *)
   Definition img_enc (name : bytes) : bytes := image (data ++ plain name) [23; 2; zlen (plain name)].
-  (* encoded header with the CRC of the header stored (what 7-Zip produces) *)
+  (* encoded header with the CRC of the header stored (what 7-Zip and the current py7zr produce) *)
   Definition img_enc_crc (name : bytes) : bytes :=
     image (data ++ plain name) ([23; 2; zlen (plain name)] ++ le_bytes 4 (crc32 (plain name))).
 
@@ -1459,8 +1465,9 @@ Example toy_damage_rejected :
   Toy.read false (flip 7%nat) = Toy.read false img.           (* version *)
 Proof. vm_compute. repeat split; reflexivity. Qed.
 
-(* REFUTED without header protection: an encoded header whose CRC is not stored (py7zr's own
-   writer: UnpackInfo.write "FIXME: write CRCs here").  One flipped bit in the packed header
+(* REFUTED without header protection: an encoded header whose CRC is not stored (archives written
+   by py7zr before commit f12575e "store the CRC of the plain header in an encoded header", or by
+   any writer that omits it; the reader has to accept them).  One flipped bit in the packed header
    stream; start header, next header, member data identical; both images accepted; the member is
    delivered under a name the original does not have; no CRC collision is involved. *)
 Theorem accept_implies_intact_or_collision_refuted_unprotected_header :
